@@ -1,7 +1,79 @@
 import SshAudit.Driver.WireOps
+import SshAudit.Model.Policy
 namespace SshAudit.Driver
+open SshAudit SshAudit.Pol
 
-/-- line-protocol operations of the Policy model (stub; filled in when the model lands) -/
-def policyOp (_op : String) (_args : List String) : Option J := none
+/-- `name:size:catype:casize;…`  (`_` = empty dict, `~` = None) -/
+def decHKS (tok : String) : Option (Option (List (Str × HKS))) :=
+  if tok = "~" then some none else if tok = "_" then some (some []) else
+  ((tok.splitOn ";").mapM fun (e : String) =>
+    match e.splitOn ":" with
+    | [n, sz, ct, cs] => do
+      let n ← decStr n; let sz ← decNat sz; let ct ← decStr ct; let cs ← decNat cs
+      pure (n, ({ size := sz, caType := ct, caSize := cs } : HKS))
+    | _ => none).map some
+
+def decDH (tok : String) : Option (Option (List (Str × Nat))) :=
+  if tok = "~" then some none else if tok = "_" then some (some []) else
+  ((tok.splitOn ";").mapM fun (e : String) =>
+    match e.splitOn ":" with
+    | [n, sz] => do let n ← decStr n; let sz ← decNat sz; pure (n, sz)
+    | _ => none).map some
+
+def decPolicy : List String → Option Policy
+  | [b, c, hk, ohk, k, ci, m, hs, dh, sub, lg] => do
+    let banner ← decOptStr b; let compressions ← decOptStrs c; let hostKeys ← decOptStrs hk
+    let optionalHostKeys ← decOptStrs ohk; let kex ← decOptStrs k; let ciphers ← decOptStrs ci; let macs ← decOptStrs m
+    let hostkeySizes ← decHKS hs; let dhSizes ← decDH dh; let allowSubset ← decBool sub; let allowLarger ← decBool lg
+    pure { banner, compressions, hostKeys, optionalHostKeys, kex, ciphers, macs, hostkeySizes, dhSizes, allowSubset, allowLarger }
+  | _ => none
+
+def decPeer : List String → Option Peer
+  | [b, hk, c, key, k, e, m, hs, dh] => do
+    let bannerStr ← decStr b; let hasKex ← decBool hk; let comp ← decStrs c; let key ← decStrs key; let kex ← decStrs k
+    let enc ← decStrs e; let mac ← decStrs m; let hostKeys ← decHKS hs; let dhSizes ← decDH dh
+    pure { bannerStr, hasKex, comp, key, kex, enc, mac, hostKeys := hostKeys.getD [], dhSizes := dhSizes.getD [] }
+  | _ => none
+
+def jerrs (es : List PErr) : J := .arr (es.map fun e => .obj [
+  ("mismatched_field", .str e.field), ("expected_required", J.ofStrs e.expectedRequired),
+  ("expected_optional", J.ofStrs e.expectedOptional), ("actual", J.ofStrs e.actual)])
+
+def jhks (l : List (Str × HKS)) : J := .arr (l.map fun (n, h) => .arr [.str n, .nat h.size, .str h.caType, .nat h.caSize])
+def jdh (l : List (Str × Nat)) : J := .arr (l.map fun (n, v) => .arr [.str n, .nat v])
+
+def jpol (p : Policy) : J := .obj [
+  ("banner", J.ofOpt .str p.banner), ("compressions", J.ofOpt J.ofStrs p.compressions), ("host_keys", J.ofOpt J.ofStrs p.hostKeys),
+  ("optional_host_keys", J.ofOpt J.ofStrs p.optionalHostKeys), ("kex", J.ofOpt J.ofStrs p.kex), ("ciphers", J.ofOpt J.ofStrs p.ciphers),
+  ("macs", J.ofOpt J.ofStrs p.macs), ("hostkey_sizes", J.ofOpt jhks p.hostkeySizes), ("dh_modulus_sizes", J.ofOpt jdh p.dhSizes),
+  ("subset", .bool p.allowSubset), ("larger", .bool p.allowLarger)]
+
+def policyOp (op : String) (args : List String) : Option J :=
+  match op with
+  | "policy.evaluate" => do
+    let p ← decPolicy (args.take 11)
+    let peer ← decPeer (args.drop 11)
+    let (ret, errs) := evaluate p peer []
+    pure (jok (.obj [("passed", .bool ret), ("errors", jerrs errs)]))
+  | "policy.evaluate2" => do   -- the same policy object evaluated twice (D29: errors accumulate)
+    let p ← decPolicy (args.take 11)
+    let peer ← decPeer (args.drop 11)
+    let (_, errs1) := evaluate p peer []
+    let (ret, errs) := evaluate p peer errs1
+    pure (jok (.obj [("passed", .bool ret), ("errors", jerrs errs)]))
+  | "policy.made" => do
+    let peer ← decPeer args
+    pure (jok (jpol (policyOf peer)))
+  | "policy.parseline" => match args with
+    | [l] => do
+      let l ← decStr l
+      pure (match parseListLine l with
+        | some (k, v) => jok (.arr [.str k, J.ofStrs v])
+        | none => jerr .value)
+    | _ => none
+  | "policy.renderlist" => match args with
+    | [k, ns] => do let k ← decStr k; let ns ← decStrs ns; pure (jok (.str (renderList k ns)))
+    | _ => none
+  | _ => none
 
 end SshAudit.Driver
